@@ -708,7 +708,7 @@ def labels_round(env, r, quick):
                 forms.append(('only', [s]))
                 pos = ('first', 'middle', 'last')
                 # every position for specials, a rotating one for the rest (all three are hit many times per field)
-                for p in (pos if ci % 3 == 0 else (pos[ci % 3],)):
+                for p in (pos if ci % 3 == 0 else (pos[r.randrange(3)],)):
                     if p == 'first':
                         forms.append((p, [s, mem[0], mem[-1]]))
                     elif p == 'middle':
@@ -728,8 +728,8 @@ def labels_round(env, r, quick):
                     kk += 1
                     case = {'family': 'labels', 'field': field, 'entry': entry, 'value': value,
                             'elem_kind': kinds[kk % len(kinds)]}
-                    if kk < 3:
-                        ctx.sample(case)
+                    if fname == 'middle' and entry == 'update' and field == 'vlan' and s.endswith('\n'):
+                        ctx.sample(case, limit=1)
                     eval_label(env, r, case)
         if ctx.out_of_time():
             return
@@ -970,6 +970,26 @@ def eval_name(env, r, case):
         ctx.count('nl:names')
 
 
+def nic_probe(env, s):
+    """Informational only (never a violation): a component name inside the documented component-name domain can
+    still be refused for NIC models, because the catalogue derives network-service / interface names from it and
+    those have narrower patterns (no blank, 255 characters including the suffix)."""
+    fx = env.fixture()
+    env.ctx.count('info:nic-component-name-tried')
+    try:
+        fx.n1.add_component(name=s, model_type=fx.nic_model)
+    except Exception as e:
+        d = env.ctx.info.setdefault('nic_component_in_domain_name_refused', {})
+        d['count'] = d.get('count', 0) + 1
+        if 'example' not in d:
+            d['example'] = {'name': s if len(s) < 60 else {'len': len(s)}, 'error': exc_text(e)}
+        return
+    try:
+        fx.n1.remove_component(name=s)
+    except Exception:
+        env.fixture(fresh=True)
+
+
 def names_round(env, r, quick):
     ctx = env.ctx
     # sliver setters: every concrete sliver class
@@ -986,7 +1006,12 @@ def names_round(env, r, quick):
         for s in name_candidates(r, kind, quick):
             if s.startswith('fx-'):
                 continue
-            eval_name(env, r, {'family': 'names', 'kind': kind, 'entry': entry, 'value': s})
+            case = {'family': 'names', 'kind': kind, 'entry': entry, 'value': s}
+            if entry == 'topo.add_link' and ' ' in s:
+                ctx.sample(case, limit=2)
+            eval_name(env, r, case)
+            if entry == 'node.add_component' and R.name(kind, s) == IN:
+                nic_probe(env, s)
         if ctx.out_of_time():
             return
     env.fixture(fresh=True)
@@ -1198,11 +1223,13 @@ def compress(s):
     return {'parts': parts}
 
 
-def json_case(env, r, kind, prop, entry, data, verdict, expect_obj, elem_kind):
+def json_case(env, r, kind, prop, entry, data, verdict, expect_obj, elem_kind, obj_index=None):
     """run one JSON blob case; data is text or object"""
     cls = env.json_classes[kind]
     case = {'family': 'json', 'kind': kind, 'entry': entry, 'repr': compress(data) if isinstance(data, str) else repr(data)[:200],
             'elem_kind': elem_kind}
+    if obj_index is not None:
+        case['obj_index'] = obj_index
     accepted, exc, stored_ok, reenc_bad = False, None, True, None
     is_text = isinstance(data, str)
     try:
@@ -1280,11 +1307,11 @@ def json_round(env, r, quick):
                     continue
                 kk += 1
                 json_case(env, r, kind, prop, entry, text, v, expect, kinds[kk % len(kinds)])
-        for obj, n in json_obj_candidates(r, limit):
+        for oi, (obj, n) in enumerate(json_obj_candidates(r, limit)):
             v = OUT if n is None or n > limit else IN
             for entry in ('class:object', 'elem_assign:object'):
                 kk += 1
-                json_case(env, r, kind, prop, entry, obj, v, obj if n is not None else None, kinds[kk % len(kinds)])
+                json_case(env, r, kind, prop, entry, obj, v, obj if n is not None else None, kinds[kk % len(kinds)], oi)
         # None means "no data": documented default is an empty JSON object
         inst = env.json_classes[kind](None)
         if inst.json != '{}':
@@ -1326,10 +1353,16 @@ def replay(ctx, case):
     elif fam == 'boot':
         eval_boot(env, r, w)
     elif fam == 'json':
-        data = rebuild_text(w['repr'])
         kind = w['kind']
         prop = next(p for p, k in JSON_PROPS.items() if k == kind)
-        v = R.json_text(kind, data) if isinstance(data, str) else UNSPEC
-        json_case(env, r, kind, prop, w['entry'], data, v, None, w.get('elem_kind', 'Node'))
+        if w.get('obj_index') is not None:
+            limit = R.JSON_LIMITS[kind]
+            data, n = json_obj_candidates(r, limit)[w['obj_index']]
+            v = OUT if n is None or n > limit else IN
+            json_case(env, r, kind, prop, w['entry'], data, v, data if n is not None else None,
+                      w.get('elem_kind', 'Node'), w['obj_index'])
+        else:
+            data = rebuild_text(w['repr'])
+            json_case(env, r, kind, prop, w['entry'], data, R.json_text(kind, data), None, w.get('elem_kind', 'Node'))
     else:
         ctx.mark_inconclusive('cannot replay this witness')
